@@ -16,6 +16,17 @@ def t_value(tag, dur=0.0, ret=None):
     return ('v', tag) if ret is None else ret
 
 
+def t_maybe(tag, dur=0.0, fail=False):
+    """like t_value; raises TaskError after the work when `fail` is set"""
+    log('task_start', tag=tag)
+    if dur:
+        time.sleep(dur)
+    log('task_end', tag=tag)
+    if fail:
+        raise TaskError(tag)
+    return ('v', tag)
+
+
 def t_identity(x):
     return x
 
